@@ -21,7 +21,7 @@ ID = "C57"
 ENGINE = "tasks"
 LEVEL = "exploration"
 TECHNIQUE = "deterministic simulation: seeded event streams with raising / re-entrant observers (fault injection at the observer seam) vs fan-out, prefix-rule and ring-buffer reference models"
-QUICK_RUNS = 60000
+QUICK_RUNS = 40000
 BATCH = 150
 RUN_WALL_LIMIT_S = 120   # runs take milliseconds; generous because whole-machine stalls >20 s were seen under load
 COMPONENTS = {"real": ["twisted.logger.LogPublisher", "twisted.logger.Logger.emit/failure", "twisted.logger.LogLevelFilterPredicate",
@@ -237,9 +237,28 @@ def run(sim):
                       lambda: "namespace %r config %r default %s: real %s, rule %s" % (ns, cfg, default_level, real.name, want))
         else:
             out = []
+            want = list(hist_model) if hist_n is None else (hist_model[max(0, len(hist_model) - hist_n):] if hist_n else [])
+            if want and sim.draw_bool(0.3, "replay_target_raises"):
+                # fault: the observer the history is replayed to raises on its k-th event.  Whether replayTo() lets the
+                # exception out is not stated; what it delivered before must be a prefix of the history, in order, and the
+                # history itself must be unharmed (the following replays and appends are checked as usual)
+                k = sim.draw_int(0, len(want) - 1, "raise_at")
+                sim.fault("replay_target_raised")
+
+                def flaky(ev):
+                    if len(out) == k:
+                        raise Boom("replay-target")
+                    out.append(ev)
+                try:
+                    history.replayTo(flaky)
+                except Boom:
+                    pass
+                sim.event("replay-interrupted", k, len(out))
+                sim.check("history-replay", len(out) <= len(want) and all(a is b for a, b in zip(out, want)), "interrupted",
+                          lambda: "replay interrupted at #%d delivered %r, history is %r" % (k, [key_of(e) for e in out], [key_of(e) for e in want]))
+                out = []
             with sim.guard("replay-raised"):
                 history.replayTo(out.append)
-            want = list(hist_model) if hist_n is None else (hist_model[max(0, len(hist_model) - hist_n):] if hist_n else [])
             if hist_n is not None and len(hist_model) > hist_n:
                 sim.probe("history_wrapped")
             sim.event("replay", len(out))
